@@ -352,6 +352,8 @@ def argfaults(ctx, b, dist, nontriv, per_cfg):
     shapes = [
         ("root", "{ ok echo(b: %s) t { s } }", ["echo"]),
         ("root-list-arg", "{ ok echo(bs: [\"x\", %s]) t { s } }", ["echo"]),
+        ("root-list-arg-first", "{ ok echo(bs: [%s, \"x\", \"y\"]) t { s } }", ["echo"]),
+        ("root-list-arg-middle", "{ ok echo(bs: [\"x\", %s, \"y\"]) t { s } }", ["echo"]),
         ("nested", "{ ok t { s echo(b: %s) kid { s } } }", ["t/echo"]),
         ("nested-non-null", "{ ok t { s echoNN(b: %s) } m { c } }", ["t/echoNN"]),
         ("root-non-null", "{ ok echoNN(b: %s) }", ["echoNN"]),
